@@ -336,6 +336,23 @@ def label_defect(g):
     return None
 
 
+def unlabelled_defect(qc_in, r):
+    """every gate with an angle that resolve_gates BUILDS carries a label, unless it takes over the (missing) label
+    of the gate it replaces or is one of the two gates substituted for a Pauli -> None | description"""
+    ok = []
+    for g in qc_in.gates:
+        if g.name in ("X", "Y", "Z"):
+            ok += [math.pi / 2, math.pi]
+        elif g.arg_label is None and isinstance(g.arg_value, (int, float)):
+            ok += [g.arg_value] + ([g.arg_value / 2] if g.name == "PHASEGATE" else [])
+    ins = [attrs(g) for g in qc_in.gates]
+    for o in r.gates:
+        if o.name in PARAM and o.arg_label is None and isinstance(o.arg_value, (int, float)) and attrs(o) not in ins:
+            if not any(abs(o.arg_value - a) < 1e-12 for a in ok):
+                return f"{o.name}{aslist(o.targets)}: built with the angle {o.arg_value!r} and no arg_label"
+    return None
+
+
 def object_defect(g):
     """fields of an emitted object that must hold whatever the input: control_value None or all-ones, label a string"""
     cs = aslist(g.controls)
@@ -476,6 +493,7 @@ class C03(PropertyCheck):
         "QipVerif.C03.basis_string_is_list",
         "QipVerif.C03.resolve_basis_perm",
         "QipVerif.C03.resolve_labels_true",
+        "QipVerif.C03.rules_label_their_angles",
     ]
     technique = ("Lean 4: rule tables regenerated from the source, each rule's exact unitary identity decided by the kernel "
                  "in Z[zeta16][1/2] (decide +kernel); parametric rules proved over C for all angles; list-level theorems on "
@@ -711,6 +729,9 @@ class C03(PropertyCheck):
                 if d > 1e-9:
                     return True, (f"for the classical bits {list(cb)} the resolved circuit applies an operator differing by "
                                   f"{d:.3g} from the one the original applies (classically controlled gates)")
+        d = unlabelled_defect(qc, r)
+        if d:
+            return True, "emitted gate object: " + d
         return False, "same unitary, basis respected"
 
     def _rand_witness(self, rng):
